@@ -540,8 +540,8 @@ def to_sym(s, env):
     return None
 
 
-def loop_coverage(f, L):
-    """E-STEP: the loop control (and the integer declarations in front of it) evaluated on witness set sizes; the subscripts of `points` must be 0..N-1"""
+def loop_coverage(f, L, cont='points', sizes=(1, 2, 3, 7, 100, 511, 512, 513, 777, 1000)):
+    """E-STEP: the loop control (and the integer declarations in front of it) evaluated on witness set sizes; the subscripts of `cont` must be 0..N-1"""
     from .. import mini
     from .C09 import _incr, _sizes
     top = f['body']['s'] if f.get('body') and f['body'].get('k') == 'Compound' else []
@@ -551,14 +551,18 @@ def loop_coverage(f, L):
     for x in walk(L['b']):
         if isinstance(x, dict) and x.get('k') in ('Op', 'Index'):
             t_ = deep_unwrap(sx(x))
-            if isinstance(t_, tuple) and len(t_) == 3 and t_[0] == '[]' and t_[1] == 'points' and t_[2] not in subs_:
+            if isinstance(t_, tuple) and len(t_) == 3 and t_[0] == '[]' and t_[1] == cont and t_[2] not in subs_:
                 subs_.append(t_[2])
     if not subs_:
-        return ('undecided', 'no subscript of `points` in the loop')
+        return ('undecided', 'no subscript of `%s` in the loop' % cont)
     norm = lambda t: _sizes(deep_unwrap(t))
-    sizes = (1, 2, 3, 7, 100, 511, 512, 513, 777, 1000)
+    consts = {}
+    for y in walk(f['body']):
+        if isinstance(y, dict) and y.get('k') == 'Ref' and isinstance(y.get('cv'), (int, float)) and not isinstance(y.get('cv'), bool) and y.get('rk') != 'local':
+            consts.setdefault(y['name'], y['cv'])          # namespace-scope constants the front end folded
     for N in sizes:
-        env = {'points': N}
+        env = dict(consts)
+        env[cont] = N
         stp = mini.Step(norm)
         try:
             for x in top[:top.index(L)]:
